@@ -17,7 +17,7 @@ from .. import bus, cover, gen, monitors
 LEVEL = 'exploration'
 JOBS = {'quick': 1, 'thorough': 16}
 REQUIRED_MONITORS = ('rotation_contract', 'frame_contract', 'rot_relations')
-REQUIRED_CLASSES = ('axis-length:unit', 'axis-length:almost-unit', 'frame:collinear', 'frame:generic', 'triple:collinear-z', 'triple:collinear-int',
+REQUIRED_CLASSES = ('call:keyword-arguments', 'axis-length:unit', 'axis-length:almost-unit', 'frame:collinear', 'frame:generic', 'triple:collinear-z', 'triple:collinear-int',
                     'triple:collinear-moved', 'triple:coincident-middle', 'embedded:exchange-map',
                     'embedded:minimize')
 RULE = ('rotation cases: (axis class x axis-norm decade x angle class); frame cases: (triple class x scale '
@@ -116,6 +116,12 @@ def run_rot(ctx, case):
         th = gen_angle(rng, tcls)
         th2 = gen_angle(rng, 'uniform') / 2
         rm = gaddlemaps.rotation_matrix       # resolved at call time: the contract wrapper
+        if k % 4 == 1:
+            pos_rm = rm
+            style = k // 4 % 3
+            # the same function called by keyword (both arguments, the angle only, arguments swapped in order)
+            rm = [lambda a, t: pos_rm(axis=a, theta=t), lambda a, t: pos_rm(a, theta=t), lambda a, t: pos_rm(theta=t, axis=a)][style]
+            ctx.hit('call:keyword-arguments')
         R = rm(axis, th)
         ctx.count('evaluations')
         ctx.hit('axis:' + acls)
